@@ -1,7 +1,31 @@
-(* C11 - fingerprint operators implement set algebra and pointwise arithmetic. Statements only. *)
+(* C11 - fingerprint operators implement set algebra and pointwise arithmetic.
+   Statements only; proofs are in Proofs/FprintOps.v.  Model: Model/Fprint.v (M2). *)
 From Coq Require Import QArith.
-From E3FP Require Import Base.Prelude Base.ZSet Model.Fprint.
+From E3FP Require Import Base.Prelude Base.ZSet Model.Fprint Proofs.FprintOps.
+Open Scope Z_scope.
 
-Theorem or_spec_placeholder : forall x a b, In x (zunion a b) <-> In x a \/ In x b.
-Proof. exact In_zunion. Qed.
-Print Assumptions or_spec_placeholder.
+(* | and + on bit fingerprints: union of the set bits, operands' length kept *)
+Theorem or_spec : forall a b r, fp_or a b = Ok r ->
+  fbits r = fbits a /\ forall i, In i (fidx r) <-> In i (fidx a) \/ In i (fidx b).
+Proof. exact or_spec. Qed.
+Print Assumptions or_spec.
+
+Theorem and_spec : forall a b r, fp_and a b = Ok r ->
+  fbits r = fbits a /\ forall i, In i (fidx r) <-> In i (fidx a) /\ In i (fidx b).
+Proof. exact and_spec. Qed.
+Print Assumptions and_spec.
+
+Theorem sub_spec : forall a b r, fp_bit_sub a b = Ok r ->
+  fbits r = fbits a /\ forall i, In i (fidx r) <-> In i (fidx a) /\ ~ In i (fidx b).
+Proof. exact bit_sub_spec. Qed.
+Print Assumptions sub_spec.
+
+Theorem xor_spec : forall a b r, fp_xor a b = Ok r ->
+  fbits r = fbits a /\
+  forall i, In i (fidx r) <-> (In i (fidx a) /\ ~ In i (fidx b)) \/ (In i (fidx b) /\ ~ In i (fidx a)).
+Proof. exact xor_spec. Qed.
+Print Assumptions xor_spec.
+
+Theorem bits_mismatch_rejected : forall op a b, fbits a <> fbits b -> bit_binop op a b = Raises EBits.
+Proof. exact bit_binop_mismatch. Qed.
+Print Assumptions bits_mismatch_rejected.
